@@ -600,7 +600,9 @@ def register_for_pickle(sv):
 
 def ite(cond, a, b):
     """symbolic if-then-else without forking"""
-    c = cond.e if isinstance(cond, SB) else z3.BoolVal(bool(cond))
+    if not isinstance(cond, SB):
+        return a if cond else b
+    c = cond.e
     x, y = _arith(zval(a), zval(b))
     return SV(z3.If(c, x, y))
 
